@@ -38,7 +38,7 @@ class CtxMgrNone:
     suppress = None
 
 # platform constants (POSIX; the Windows branches are not taken -- stated assumption)
-EXTERN_CONSTS = {"os.name": "posix", "os.sep": "/", "posixpath.sep": "/", "os.path.sep": "/", "errno.ENOENT": 2}
+EXTERN_CONSTS = {"os.name": "posix", "os.sep": "/", "posixpath.sep": "/", "os.path.sep": "/", "errno.ENOENT": 2, "stat.S_IWRITE": 128, "stat.S_IREAD": 256, "stat.S_IEXEC": 64, "stat.S_IWUSR": 128, "stat.S_IXUSR": 64}
 
 
 class ExternMethod:
